@@ -56,7 +56,7 @@ fn model_deprecated(schema: &Schema, doc: &Document, op: &Operation) -> Vec<(Str
     out
 }
 
-fn wire_name(f: &syn::Field) -> String {
+pub fn wire_name(f: &syn::Field) -> String {
     for a in &f.attrs {
         if a.path().is_ident("serde") {
             let mut found = None;
